@@ -14,7 +14,7 @@ class C07(FCheck):
     PAIRS = {"quick": 0, "thorough": 20}
     kinds = ("errno",)
     needs_probe = True
-    technique = "deterministic simulation: exact deadlock detection over emulated futex queues, step budget and CPU-spin guard in every run; seeded schedules (incl. starved workers / starved dispatcher) and single-fault enumeration; API probe for the library clause"
+    technique = "deterministic simulation: exact deadlock detection over emulated futex queues (timed waits on the simulated clock, seeded time jumps), step budget and CPU-spin guard in every run; seeded schedules (incl. starved workers / starved dispatcher) and single-fault enumeration; API probe for the library clause"
     rule = ("case = tree incl. FIFOs and sockets (never opened: the simulated kernel models an open of a peerless FIFO as blocking forever), "
             "empty trees, multi-block files exceeding the 128-job pool queue, -w up to 64, both drivers; one case in four through the API "
             "probe (copy() in a thread or inline, ChannelUpdater / recording / Noop); each case runs fault-free under a seeded schedule "
